@@ -39,13 +39,7 @@ def run(ctx, rep):
         forms[nm] = txt.replace(fld, "F")
         rep.check(ok, "M1", m, r[0] if r else nm, "values stacked in sorted key order", "%s is %s, expected %s" % (nm, txt, want_core), node=r[0] if r else m.node)
     cp = sq.methods["calc_prob_dists"]
-    txt = unparse(cp.node)
-    ok = "self.calc_matA() @ qope.to_var() + self.calc_vecB()" in txt and "self.calc_matA() @ qope.to_stacked_vector() + self.calc_vecB()" in txt \
-        and "reshape((self.num_schedules, -1))" in txt
-    ifs = [n for n in own_nodes(cp.node) if isinstance(n, ast.If) and unparse(n.test) == "self._on_para_eq_constraint"]
-    ok = ok and len(ifs) == 1 and "to_var()" in unparse(ifs[0].body[0]) and "to_stacked_vector()" in unparse(ifs[0].orelse[0])
-    rep.check(ok, "M1", cp, "A x + b", "to_var() under the parametrised flag, stacked vector otherwise; one row block per schedule",
-              "calc_prob_dists does not apply A x + b to the right variables / reshape per schedule", node=cp.node)
+    _check_prob_dists(ctx, rep, cp)
     # ---- M2
     for q in (T + "standard_qst.StandardQst._set_coeffs", T + "standard_povmt.StandardPovmt._set_coeffs", T + "standard_qpt.calc_c_qpt",
               T + "standard_qmpt.StandardQmpt._set_coeffs"):
@@ -138,71 +132,244 @@ def run(ctx, rep):
             else:
                 rep.violation("M3", f, con, "reads the %s from position %s, which %s's schedules pin to '%s'" % (role, pos, short, shape[p]), node=n)
     # ---- M4 / M5
-    f = ix.func(T + "standard_qpt.calc_c_qpt")
-    outs = [n for n in own_nodes(f.node) if isinstance(n, ast.Call) and (dotted(n.func) or "").endswith("outer")]
-    ok = len(outs) == 1 and [unparse(a) for a in outs[0].args] == ["povm_vec", "state.vec"] and isinstance(getattr(outs[0], "_parent", None), ast.Attribute) \
-        and getattr(outs[0], "_parent").attr == "flatten"
-    rep.check(ok, "M4", f, outs[0] if outs else "outer", "outer(povm, state).flatten(): index r*d^2 + c multiplies HS[r, c]",
-              "the row is %s; p = sum povm[r] HS[r,c] state[c] needs outer(povm_vec, state.vec) flattened row-major" % (unparse(outs[0]) if outs else None), node=outs[0] if outs else f.node)
-    defs = {unparse(s.targets[0]): s.value for s in own_nodes(f.node) if isinstance(s, ast.Assign) and isinstance(s.targets[0], ast.Name)}
-    a = defs.get("a")
-    ok5 = False
-    why = "no slice of the row found"
-    if isinstance(a, ast.Subscript) and isinstance(a.slice, ast.Slice) and a.slice.upper is None and unparse(a.value) == "c":
-        try:
-            d_ = {k: v for k, v in defs.items() if k in ("dim", "vec_size")}
-            lo = _size_poly(a.slice.lower, f, {"dim": ast.parse("np.sqrt(vec_size)", mode="eval").body})
-            lo = lo.subst({"vec_size": D2}) if "vec_size" in [s for s in lo.symbols()] else lo
-        except Undecided as ex:
-            lo = None
-            why = str(ex)
-        txt = unparse(a.slice.lower)
-        ok5 = txt.replace(" ", "") in ("int(dim*dim)", "dim**2", "int(dim**2)", "vec_size") and unparse(defs.get("dim")) == "np.sqrt(vec_size)" \
-            and unparse(defs.get("vec_size")) == "state.vec.shape[0]"
-        why = "skipped coordinates start at %s; the implied first HS row occupies coordinates 0..d^2-1" % txt
-    rep.check(ok5, "M5", f, "process: skipped coordinates", "variables are c[d^2:]", why, node=f.node)
-    st0 = [n for n in own_nodes(f.node) if isinstance(n, ast.Assign) and unparse(n.targets[0]).startswith("coeffs_0th[") and not is_num(n.value, 0)]
-    rep.check(len(st0) == 1 and unparse(st0[0].value) == "c[0]", "M5", f, "process: offset", "offset = c[0] (implied HS[0,0] = 1)",
-              "offset is %s, the implied row e0 contributes c[0]" % [unparse(s.value) for s in st0], node=st0[0] if st0 else f.node)
-    # Qst
-    f = ix.func(T + "standard_qst.StandardQst._set_coeffs")
-    pairs = {}
+    _m45(ctx, rep)
+
+
+def _check_prob_dists(ctx, rep, cp: Func):
+    """calc_prob_dists: A @ x + b with x = to_var() under the parametrised flag and to_stacked_vector() otherwise, reshaped per schedule"""
+    from ..astutil import deep_inline, conjuncts
+    from ..matexpr import product
+    con = "A x + b"
+    rets = returns(cp)
+    if len(rets) != 1:
+        rep.undecided("M1", cp, con, "expected one return")
+        return
+    e = deep_inline(cp, rets[0].value)
+    # peel reshape((self.num_schedules, -1)) / list(...)
+    resh = [n for n in own_nodes(cp.node) if isinstance(n, ast.Call) and isinstance(n.func, ast.Attribute) and n.func.attr == "reshape"]
+    resh_ok = any(unparse(r).replace(" ", "").endswith(("reshape((self.num_schedules,-1))", "reshape(self.num_schedules,-1)")) for r in resh)
+    # the affine expressions A @ x + b anywhere in the function (inlined)
+    forms = []
+    flag = "self._on_para_eq_constraint"
+
+    def affine(x, polarity):
+        if isinstance(x, ast.IfExp):
+            c = conjuncts(x.test, True)
+            if c and len(c) == 1 and c[0][0] in (flag, "self.on_para_eq_constraint"):
+                affine(x.body, c[0][1])
+                affine(x.orelse, not c[0][1])
+            return
+        if isinstance(x, ast.BinOp) and isinstance(x.op, ast.Add):
+            for a, b in ((x.left, x.right), (x.right, x.left)):
+                if unparse(b) == "self.calc_vecB()" and isinstance(a, ast.BinOp) and isinstance(a.op, ast.MatMult) and unparse(a.left) == "self.calc_matA()":
+                    v = a.right
+                    if isinstance(v, ast.IfExp):
+                        c = conjuncts(v.test, True)
+                        if c and len(c) == 1 and c[0][0] in (flag, "self.on_para_eq_constraint"):
+                            forms.append((c[0][1], unparse(v.body)))
+                            forms.append((not c[0][1], unparse(v.orelse)))
+                            return
+                    forms.append((polarity, unparse(v)))
+                    return
+    # candidates: every expression statement value in the function, with its guard
+    from ..astutil import guards_of
+    for n in own_nodes(cp.node):
+        if isinstance(n, ast.Assign) and len(n.targets) == 1:
+            g = {t: pol for t, pol, _ in guards_of(n)}
+            pol = g.get(flag, g.get("self.on_para_eq_constraint"))
+            before = len(forms)
+            affine(inline(cp, n.value, defs={k: v for k, v in single_defs(cp).items()}), pol)
+    got = {}
+    for pol, v in forms:
+        got.setdefault(pol, set()).add(v)
+    ok = got.get(True) == {"qope.to_var()"} and got.get(False) == {"qope.to_stacked_vector()"} and None not in got
+    if not forms:
+        rep.undecided("M1", cp, con, "no expression self.calc_matA() @ x + self.calc_vecB() found")
+    elif not ok:
+        rep.violation("M1", cp, con, "the model is applied to %s; it was assembled for to_var() when the constraint is built into the parametrisation and "
+                      "for to_stacked_vector() otherwise" % {str(k): sorted(v) for k, v in got.items()}, node=cp.node)
+    elif not resh_ok:
+        rep.violation("M1", cp, con, "the result is not split into one row block per schedule (reshape((self.num_schedules, -1)))", node=rets[0])
+    else:
+        rep.holds("M1", cp, con, "to_var() under the parametrised flag, stacked vector otherwise; one row block per schedule", node=rets[0])
+
+
+def _coeff_stores(f: Func):
+    """stores into the two coefficient dictionaries: [(kind '1st'|'0th', flag True/False/None, value inlined, stmt)]"""
+    from ..astutil import deep_inline, guards_of
+    out = []
     for n in own_nodes(f.node):
-        if isinstance(n, ast.Assign) and isinstance(n.targets[0], ast.Subscript) and "_coeffs_" in unparse(n.targets[0].value):
-            from .c03 import _branch_flag
-            pairs[(unparse(n.targets[0].value), _branch_flag(n, "on_para_eq_constraint"))] = n.value
-    ok = unparse(pairs.get(("self._coeffs_1st", True))) == "vec[1:]" and unparse(pairs.get(("self._coeffs_1st", False))) == "vec" \
-        and is_num(pairs.get(("self._coeffs_0th", False)), 0)
-    rep.check(ok, "M4", f, "state: rows", "row = POVM vector (coordinates 1.. when parametrised)", "rows are %s" % {k: unparse(v) for k, v in pairs.items()}, node=f.node)
-    off = pairs.get(("self._coeffs_0th", True))
+        if isinstance(n, ast.Assign) and len(n.targets) == 1 and isinstance(n.targets[0], ast.Subscript):
+            base = unparse(n.targets[0].value)
+            kind = "1st" if base.endswith("coeffs_1st") else "0th" if base.endswith("coeffs_0th") else None
+            if kind is None:
+                continue
+            g = {t: pol for t, pol, _ in guards_of(n)}
+            out.append((kind, g.get("on_para_eq_constraint"), n.value, n))
+    return out
+
+
+def _m45(ctx, rep):
+    from ..astutil import deep_inline
+    from ..tables import flat_order
+    from .c12 import _ipoly
+    ix = ctx.ix
+    VEC_SIZE_IS_D2 = {"vec_size": D2}
+
+    def spoly(e, f):
+        """size polynomial with dim = sqrt(vec_size), vec_size = <vec>.shape[0] = d^2"""
+        e = deep_inline(f, e)
+
+        class R(ast.NodeTransformer):
+            def visit_Subscript(self, n):
+                if isinstance(n.value, ast.Attribute) and n.value.attr == "shape" and unparse(n.value.value).endswith(("vec", "_vec")) and is_num(n.slice, 0):
+                    return ast.copy_location(ast.BinOp(left=ast.Name(id="dim", ctx=ast.Load()), op=ast.Pow(), right=ast.Constant(value=2)), n)
+                return self.generic_visit(n)
+        e = ast.fix_missing_locations(R().visit(e))
+        return _size_poly(e, None, {})
+    # ------------------------------------------------ process tomography
+    f = ix.func(T + "standard_qpt.calc_c_qpt")
+    st = _coeff_stores(f)
+    rows = {fl: deep_inline(f, v) for k, fl, v, n in st if k == "1st"}
+    offs = {fl: deep_inline(f, v) for k, fl, v, n in st if k == "0th"}
+    con = "process: rows"
+    full = rows.get(False)
+    if full is None or rows.get(True) is None:
+        rep.undecided("M4", f, con, "expected one row store per value of on_para_eq_constraint")
+    else:
+        order, base = flat_order(ctx, full)
+        okrow = order == "C" and isinstance(base, ast.Call) and (dotted(base.func) or "").endswith("outer") and len(base.args) == 2
+        if not okrow:
+            rep.undecided("M4", f, con, "row `%s` is not a row-major flattened outer product" % unparse(full))
+        else:
+            a0, a1 = unparse(base.args[0]), unparse(base.args[1])
+            loopvars = {l.target.elts[1].id if isinstance(l.target, ast.Tuple) else unparse(l.target): unparse(l.iter)
+                        for l in own_nodes(f.node) if isinstance(l, ast.For) and "povm" in unparse(l.iter)}
+            is_povm = a0 in loopvars and "vecs" in loopvars[a0]
+            is_state = a1.endswith(".vec") and "state" in a1
+            rep.check(is_povm and is_state, "M4", f, con, "outer(povm element, state).flatten(): index r*d^2 + c multiplies HS[r, c]",
+                      "the row is outer(%s, %s) flattened; p = sum povm[r] HS[r,c] state[c] needs outer(povm element, state vector) flattened row-major"
+                      % (a0, a1), node=base)
+        red = rows[True]
+        con5 = "process: skipped coordinates"
+        if isinstance(red, ast.Subscript) and isinstance(red.slice, ast.Slice) and red.slice.upper is None and red.slice.lower is not None \
+                and unparse(red.value) == unparse(full):
+            try:
+                lo = spoly(red.slice.lower, f)
+                rep.check(lo == D2, "M5", f, con5, "variables are row[d^2:]", "skipped coordinates start at %r; the implied first HS row occupies "
+                          "coordinates 0..d^2-1" % lo, node=f.node)
+            except Undecided as ex:
+                rep.undecided("M5", f, con5, str(ex))
+        else:
+            rep.undecided("M5", f, con5, "parametrised row `%s` is not a tail slice of the full row" % unparse(red))
+        o_t, o_f = offs.get(True), offs.get(False)
+        ok0 = o_t is not None and isinstance(o_t, ast.Subscript) and unparse(o_t.value) == unparse(full) and is_num(o_t.slice, 0) and o_f is not None and is_num(o_f, 0)
+        rep.check(ok0, "M5", f, "process: offset", "offset = row[0] (implied HS[0,0] = 1), 0 otherwise",
+                  "offsets are %s / %s; the implied row e0 contributes row[0]" % (unparse(o_t) if o_t is not None else None, unparse(o_f) if o_f is not None else None), node=f.node)
+    # ------------------------------------------------ state tomography
+    f = ix.func(T + "standard_qst.StandardQst._set_coeffs")
+    st = _coeff_stores(f)
+    rows = {fl: deep_inline(f, v) for k, fl, v, n in st if k == "1st"}
+    offs = {fl: deep_inline(f, v) for k, fl, v, n in st if k == "0th"}
+    pv = {unparse(l.target.elts[1]) if isinstance(l.target, ast.Tuple) else unparse(l.target) for l in own_nodes(f.node)
+          if isinstance(l, ast.For) and "vecs" in unparse(l.iter)}
+    r_t, r_f = rows.get(True), rows.get(False)
+    if r_t is None or r_f is None:
+        rep.undecided("M4", f, "state: rows", "expected one row store per value of on_para_eq_constraint")
+    else:
+        ok = unparse(r_f) in pv and isinstance(r_t, ast.Subscript) and unparse(r_t.value) == unparse(r_f) and unparse(r_t.slice).replace(" ", "") == "1:"
+        rep.check(ok, "M4", f, "state: rows", "row = POVM vector (coordinates 1.. when parametrised)",
+                  "rows are %s / %s" % (unparse(r_t), unparse(r_f)), node=f.node)
+    off = offs.get(True)
     try:
-        good = isinstance(off, ast.BinOp) and isinstance(off.op, ast.Div) and unparse(off.left) == "vec[0]" and _size_poly(off.right, f) == Poly.sym("d") ** Fraction(1, 2)
-    except Undecided:
-        good = False
-    rep.check(good, "M5", f, "state: offset", "offset = povm[0] * d^-1/2", "offset is %s, the implied coefficient is d^-1/2" % (unparse(off) if off is not None else None), node=f.node)
-    # Povmt
+        good = isinstance(off, ast.BinOp) and isinstance(off.op, ast.Div) and isinstance(off.left, ast.Subscript) and unparse(off.left.value) in pv \
+            and is_num(off.left.slice, 0) and _size_poly(off.right, f) == Poly.sym("d") ** Fraction(1, 2) and offs.get(False) is not None and is_num(offs.get(False), 0)
+        rep.check(good, "M5", f, "state: offset", "offset = povm[0] * d^-1/2", "offset is %s, the implied coefficient is d^-1/2" % (unparse(off) if off is not None else None),
+                  node=f.node)
+    except Undecided as ex:
+        rep.undecided("M5", f, "state: offset", str(ex))
+    # ------------------------------------------------ POVM tomography
     f = ix.func(T + "standard_povmt.StandardPovmt._set_coeffs")
-    defs = {unparse(s.targets[0]): s.value for s in own_nodes(f.node) if isinstance(s, ast.Assign) and isinstance(s.targets[0], ast.Name)}
-    ok = unparse(defs.get("pre_zeros")) == "np.zeros((1, m_index * vec_size)).flatten()" and \
-        unparse(defs.get("post_zeros")) == "np.zeros((1, (m - 1 - m_index) * vec_size)).flatten()" and unparse(defs.get("c")) == "np.hstack(stack_list)"
-    order = [unparse(n.args[0]) for n in sorted((x for x in own_nodes(f.node) if isinstance(x, ast.Call) and unparse(x.func) == "stack_list.append"),
-                                                 key=lambda x: (x.lineno, x.col_offset))]
-    ok = ok and order == ["pre_zeros", "state.vec", "post_zeros"]
-    rep.check(ok, "M4", f, "povm: block placement", "state vector in block m_index of m blocks", "the state vector is not placed in block m_index (%s)" % order, node=f.node)
-    ok = unparse(defs.get("a")) == "a_prime - np.tile(c_prime, m - 1)" and unparse(defs.get("dim")) == "np.sqrt(vec_size)"
-    spl = [n for n in own_nodes(f.node) if isinstance(n, ast.Call) and (dotted(n.func) or "").endswith("split")]
-    ok = ok and len(spl) == 1 and unparse(spl[0].args[1]) == "[vec_size * (m - 1)]"
-    rep.check(ok, "M5", f, "povm: implied last element", "a = a' - tile(c', m-1) with the split at (m-1) d^2",
-              "the implied last POVM element is not substituted as sqrt(d) e0 - sum of the others", node=f.node)
-    b = defs.get("b")
-    good = False
-    if isinstance(b, ast.BinOp) and isinstance(b.op, ast.Mult):
-        for coef, other in ((b.left, b.right), (b.right, b.left)):
-            if unparse(other) == "c_prime[0]":
-                try:
-                    # dim = sqrt(vec_size), vec_size = d^2  ->  sqrt(dim) = d^1/2
-                    cexp = _size_poly(coef, f, {"dim": ast.parse("np.sqrt(vec_size)", mode="eval").body, "vec_size": ast.parse("d2", mode="eval").body})
-                except Undecided:
-                    cexp = None
-                good = unparse(coef) == "np.sqrt(dim)"
-    rep.check(good, "M5", f, "povm: offset", "offset = d^1/2 * state[0] on the last block", "offset is %s; the implied total is d^1/2 e0" % (unparse(b) if b is not None else None), node=f.node)
+    st = _coeff_stores(f)
+    rows = {fl: v for k, fl, v, n in st if k == "1st"}
+    offs = {fl: v for k, fl, v, n in st if k == "0th"}
+    defs = single_defs(f)
+    # the element loop `for k in range(M)`
+    eloops = [l for l in own_nodes(f.node) if isinstance(l, ast.For) and isinstance(l.target, ast.Name) and unparse(l.iter).startswith("range(")
+              and any(x is n for k_, fl_, v_, n in st for x in ast.walk(l))]
+    con = "povm: block placement"
+    if len(eloops) != 1 or rows.get(False) is None:
+        rep.undecided("M4", f, con, "expected one loop over the outcome index around the coefficient stores")
+    else:
+        lp = eloops[0]
+        k = lp.target.id
+        M = deep_inline(f, lp.iter.args[0])
+        full = rows[False]
+        hs = inline(f, full, defs={k_: v_ for k_, v_ in defs.items() if not isinstance(v_, (ast.List, ast.ListComp))})
+        # c = np.hstack(L) with L filled by appends in order
+        ok_h = isinstance(hs, ast.Call) and (dotted(hs.func) or "").endswith("hstack") and hs.args and isinstance(hs.args[0], ast.Name)
+        if not ok_h:
+            rep.undecided("M4", f, con, "full row `%s` is not np.hstack(<list>)" % unparse(hs))
+        else:
+            lst = hs.args[0].id
+            apps = sorted((x for x in ast.walk(lp) if isinstance(x, ast.Call) and unparse(x.func) == lst + ".append" and x.args), key=lambda x: (x.lineno, x.col_offset))
+            parts = [deep_inline(f, a.args[0]) for a in apps]
+
+            def zeros_len(e):
+                o, b = flat_order(ctx, e)
+                b = b if o else e
+                if isinstance(b, ast.Call) and (dotted(b.func) or "").endswith("zeros") and b.args:
+                    a = b.args[0]
+                    if isinstance(a, ast.Tuple) and len(a.elts) == 2 and is_num(a.elts[0], 1):
+                        a = a.elts[1]
+                    return a
+                return None
+            try:
+                good = len(parts) == 3 and zeros_len(parts[0]) is not None and zeros_len(parts[2]) is not None and unparse(parts[1]).endswith(".vec")
+                if good:
+                    Vn = "vec_size"
+                    pre = _ipoly(zeros_len(parts[0]), {})
+                    post = _ipoly(zeros_len(parts[2]), {})
+                    Mp = _ipoly(M, {})
+                    V = pre.div_mono(Poly.sym(k)) if not pre.is_zero() else None
+                    good = V is not None and len(V.t) == 1 and pre == Poly.sym(k) * V and post == (Mp - 1 - Poly.sym(k)) * V
+                rep.check(good, "M4", f, con, "state vector in block k of M blocks (k zeros-blocks before, M-1-k after)",
+                          "the row is hstack(%s): the state vector must sit in block `%s` of %s blocks" % ([unparse(x) for x in parts], k, unparse(M)), node=f.node)
+            except ValueError as ex:
+                rep.undecided("M4", f, con, str(ex))
+        # implied last element
+        con5 = "povm: implied last element"
+        a = rows.get(True)
+        a = inline(f, a, defs={k_: v_ for k_, v_ in defs.items()}) if a is not None else None
+        spl = [n for n in own_nodes(f.node) if isinstance(n, ast.Call) and (dotted(n.func) or "").endswith("split")]
+        tup = [n for n in own_nodes(f.node) if isinstance(n, ast.Assign) and isinstance(n.targets[0], ast.Tuple) and len(n.targets[0].elts) == 2 and n.value in spl]
+        if a is None or len(spl) != 1 or len(tup) != 1:
+            rep.undecided("M5", f, con5, "expected (head, last) = np.split(row, [position]) and a parametrised row store")
+        else:
+            head, last = [x.id for x in tup[0].targets[0].elts]
+            try:
+                pos = spl[0].args[1]
+                pos = pos.elts[0] if isinstance(pos, (ast.List, ast.Tuple)) and len(pos.elts) == 1 else pos
+                pp = _ipoly(deep_inline(f, pos), {})
+                Mp = _ipoly(M, {})
+                form = isinstance(a, ast.BinOp) and isinstance(a.op, ast.Sub) and unparse(a.left) == head and isinstance(a.right, ast.Call) \
+                    and (dotted(a.right.func) or "").endswith("tile") and unparse(a.right.args[0]) == last \
+                    and _ipoly(deep_inline(f, a.right.args[1]), {}) == Mp - 1
+                Vsyms = [sym for sym in pp.symbols() if sym not in Mp.symbols()]
+                split_ok = len(Vsyms) == 1 and pp == Poly.sym(Vsyms[0]) * (Mp - 1)
+                rep.check(form and split_ok, "M5", f, con5, "a = head - tile(last, M-1) with the split at (M-1) blocks",
+                          "the implied last POVM element is not substituted as sqrt(d) e0 - sum of the others (row %s, split at %s)" % (unparse(a), unparse(pos)), node=f.node)
+            except ValueError as ex:
+                rep.undecided("M5", f, con5, str(ex))
+            b = offs.get(True)
+            b = deep_inline(f, b) if b is not None else None
+            good = False
+            if isinstance(b, ast.BinOp) and isinstance(b.op, ast.Mult):
+                for coef, other in ((b.left, b.right), (b.right, b.left)):
+                    if isinstance(other, ast.Subscript) and unparse(other.value) == last and is_num(other.slice, 0):
+                        try:
+                            good = spoly(coef, f) == Poly.sym("d") ** Fraction(1, 2)
+                        except Undecided:
+                            good = False
+            rep.check(good, "M5", f, "povm: offset", "offset = d^1/2 * state[0] on the last block", "offset is %s; the implied total is d^1/2 e0" % (unparse(b) if b is not None else None),
+                      node=f.node)
